@@ -7,6 +7,7 @@ import (
 	"encoding/json"
 	"fmt"
 	"sort"
+	"strconv"
 	"strings"
 
 	"github.com/BondMachineHQ/BondMachine/pkg/bondmachine"
@@ -162,6 +163,17 @@ func Simulate(m *procbuilder.Machine, inputs []uint64, ticks int, intendedJe []s
 			}
 			executed++
 			continue
+		}
+		if op.Op_get_name() == "j" {
+			// the simulator's j does not jump to an address past the last instruction (op_j.go Simulate: it only
+			// advances the pc); the hardware does, and so does the simulator's jz. A routine that jumps out of its
+			// program (a break out of its last loop) has ended: nothing it does afterwards is the program's.
+			if dis, derr := op.Disassembler(&m.Arch, instr[opBits:]); derr == nil {
+				if tgt, e := strconv.Atoi(strings.TrimSpace(dis)); e == nil && tgt >= n {
+					executed++
+					break
+				}
+			}
 		}
 		if op.Op_get_name() == "r2o" {
 			dis, derr := op.Disassembler(&m.Arch, instr[opBits:])
